@@ -53,10 +53,39 @@ def refmap_check(sc, obs, bounds=True):
     """Returns None when every observation is what a map would return, else (step, message)."""
     size = sc["size"]
     maps = {"a": {}, "b": {}}
+    paged = {}        # store -> open paged iteration: {"start": {hkey: key}, "touched": set, "yielded": [keys]}
     for i, op in enumerate(sc["ops"]):
         if i >= len(obs):
             return (i, "no observation (scenario aborted)")
         ob = obs[i]
+        if op[0] in ("put", "putraw", "del", "updttl") and len(op) > 2 and op[1] in paged:
+            paged[op[1]]["touched"].add(int(op[2]))
+        if op[0] == "xfer":
+            paged.clear()
+        if op[0] == "scanreset":
+            paged.pop(op[1], None)
+            continue
+        if op[0] == "scanpage":
+            # an iteration kept open across other operations (compaction included): every entry that is present from the
+            # first page to the last and never written or deleted in between is handed out at least once
+            if ob[0] != "page" or ob[2] is None:
+                return (i, "scan page failed: %s" % (ob[1:],))
+            w_ = op[1]
+            if ob[1] == 0 or w_ not in paged:
+                paged[w_] = {"start": {h: e[0].hex() for h, e in maps[w_].items()} if ob[1] == 0 else {}, "touched": set(), "yielded": []}
+            paged[w_]["yielded"] += ob[3] or []
+            if ob[2] == 0:
+                it = paged.pop(w_)
+                need = {}
+                for h, k in it["start"].items():
+                    if h not in it["touched"]:
+                        need[k] = need.get(k, 0) + 1
+                for k, n in need.items():
+                    got = it["yielded"].count(k)
+                    if got < n:
+                        return (i, "a paged scan (COUNT %d, other operations between its pages) handed out key %s %d times; %d entries with that key "
+                                   "were present and untouched from its first page to its last" % (op[2], k, got, n))
+            continue
         if ob[0] == "hang":
             return (i, "operation %s did not return (watchdog)" % op[0])
         if ob[0] == "panic":
@@ -251,6 +280,8 @@ def case_to_coq(sc, obs):
     """Coq term for one case, truncated at the first observation that has no model counterpart."""
     pairs = []
     for op, ob in zip(sc["ops"], obs):
+        if op[0] in ("scanpage", "scanreset"):
+            continue        # an iteration kept open across other operations: judged by paged_scan_check, no model step
         o = obs_to_coq(ob)
         if o is None:
             break
@@ -317,6 +348,34 @@ def mk_put(rng, wh, h, klen, vlen, raw=False, ts=None):
     if ts is None:
         ts = rng.randrange(1, 1 << 40)
     return ["putraw" if raw else "put", wh, str(h), k.hex(), v.hex(), ttl, ts]
+
+
+def gen_paged_scan(rng, sid):
+    """an iteration kept open, page by page, while entries it has already handed out are deleted and compaction recycles the
+    table the cursor stands in (and other tables)"""
+    size = rng.choice([257, 509])
+    nk = rng.choice([24, 36])
+    vlen = rng.choice([40, 60])
+    ops = []
+    ts = 1
+    for h in range(1, nk + 1):
+        k = bytes([97 + h % 3, h])          # distinct keys
+        ops.append(["put", "a", str(h), k.hex(), (bytes([rng.randrange(256)]) * vlen).hex(), 0, ts])
+        ts += 1
+    cnt = rng.choice([2, 3, 5])
+    pages_before = rng.randrange(2, max(3, nk // cnt - 2))
+    ops.append(["scanreset", "a"])
+    for _ in range(pages_before):
+        ops.append(["scanpage", "a", cnt])
+    # delete a run of hkeys in the middle (written one after the other: they share tables), then compact to completion
+    lo = rng.randrange(2, nk // 2)
+    for h in range(lo, min(nk, lo + rng.randrange(4, 12))):
+        ops.append(["del", "a", str(h)])
+    ops.append([rng.choice(["compactall", "compact"]), "a"])
+    for _ in range(nk // cnt + 6):
+        ops.append(["scanpage", "a", cnt])
+    ops += [["stats", "a"], ["range", "a"], ["scanall", "a", 3, 0]]
+    return {"id": sid, "size": size, "fork": True, "expired": rng.random() < 0.5, "eqsize": False, "ops": ops}
 
 
 def gen_random(rng, sid, size=None, nops=None, eqsize=None, xfer=True, weights=None):
